@@ -274,6 +274,9 @@ pub fn explore(run: &RdRun, init: Box<dyn Rd>) -> Outcome {
     queue.push_back((0, init, pos0));
     let mut sampled = false;
     let mut nviol = 0u64;
+    // distinct MODEL transitions (position, operation): independent of how many concrete states the
+    // implementation distinguishes, hence comparable across builds and internal representations
+    let mut model_tr: std::collections::HashSet<(usize, u32)> = std::collections::HashSet::new();
     let t_start = std::time::Instant::now();
     let wall_cap = wall_cap_s();
     while let Some((id, rd, pos)) = queue.pop_front() {
@@ -306,6 +309,7 @@ pub fn explore(run: &RdRun, init: Box<dyn Rd>) -> Outcome {
             let mut r2 = rd.fork();
             let obs = r2.apply(op);
             out.cov.transitions += 1;
+            model_tr.insert((pos, opi as u32));
             let mut verdict = judge(&exp, &obs, if errored { 0 } else { pos });
             // an observation = what the call returned and where it left the stream
             out.cov.observe(op.class(), fnv(format!("{:?}{:?}", obs, verdict.as_ref().ok()).as_bytes()));
@@ -399,6 +403,7 @@ pub fn explore(run: &RdRun, init: Box<dyn Rd>) -> Outcome {
     out.cov.states += nodes.len() as u64;
     // every transition is one step of the model executed on the implementation and compared
     out.cov.traces_validated += out.cov.transitions;
+    out.cov.add_extra("reader_model_transitions", model_tr.len() as u64);
     out
 }
 
